@@ -429,7 +429,8 @@ def main(argv=None):
         with open(os.path.join(OUT, path), "w") as f:
             json.dump(rec, f, indent=1, default=repr)
         if ("contract_index" in v and not v.get("bounded") and "replay_error" not in rec
-                and rec.get("violated_clauses") == [] and ("/ensures/" in v["obligation"] or "/raises/" in v["obligation"])):
+                and rec.get("violated_clauses") == [] and ("/ensures/" in v["obligation"] or "/raises/" in v["obligation"])
+                and getattr(c, "replay_decides", True)):
             # The solver's counterexample was run on the real code and every clause of the contract holds for it: the
             # "counterexample" is an artefact of an over-approximation (the havoc of an inductive loop, an
             # uninterpreted library function, a call-out), not behaviour of the code.  The obligation stays
